@@ -26,8 +26,15 @@ SizedEv == LET e == Log[l] IN
   /\ SizedOk(e.size, e.len)
   /\ (e.drawn >= 0 => e.drawn = e.size)       \* one draw of the element generator per element
 
+(* collections of 2^32 and more members (sizes beyond TLC's integers: the driver compares the *)
+(* reported number of members with the length and logs "len" when they are equal): built,     *)
+(* never rejected, and the number of members is the true one                                   *)
+HugeEv == LET e == Log[l] IN
+  /\ e.ev = "huge"
+  /\ e.b = [k |-> "ok", n |-> "len"]
+
 TraceInit == l = 1
-TraceNext == l <= Len(Log) /\ l' = l + 1 /\ (Choice \/ CollectEv \/ SizedEv)
+TraceNext == l <= Len(Log) /\ l' = l + 1 /\ (Choice \/ CollectEv \/ SizedEv \/ HugeEv)
 TraceSpec == TraceInit /\ [][TraceNext]_l
 TraceAccepted ==
   LET d == TLCGet("stats").diameter IN
